@@ -67,7 +67,11 @@ func raceSite(blk string) string {
 	}
 	var fr []string
 	for _, s := range stacks {
-		fr = append(fr, PolyformFrame(s))
+		f := trimTypeArgs(PolyformFrame(s))
+		if f == "?" && strings.Contains(s, "polyverif/") {
+			f = "harness callback"
+		}
+		fr = append(fr, f)
 	}
 	for len(fr) < 2 {
 		fr = append(fr, "?")
@@ -76,4 +80,29 @@ func raceSite(blk string) string {
 		fr[0], fr[1] = fr[1], fr[0]
 	}
 	return fr[0] + " <-> " + fr[1]
+}
+
+// trimTypeArgs shortens generic instantiations: nodes.(*Struct[go.shape.…]).Value → nodes.(*Struct[…]).Value
+func trimTypeArgs(f string) string {
+	var out strings.Builder
+	depth := 0
+	for i := 0; i < len(f); i++ {
+		switch f[i] {
+		case '[':
+			if depth == 0 {
+				out.WriteString("[…")
+			}
+			depth++
+		case ']':
+			depth--
+			if depth == 0 {
+				out.WriteByte(']')
+			}
+		default:
+			if depth == 0 {
+				out.WriteByte(f[i])
+			}
+		}
+	}
+	return out.String()
 }
